@@ -1,5 +1,6 @@
 """C15 - keychain contents, defaults and signers stay consistent over any history (with storage faults)."""
 import datetime
+import hashlib
 import os
 import shutil
 import sqlite3
@@ -332,7 +333,9 @@ def check_signer(w, model, default_id, op, r, deleted_keys):
             sel_id, sel_key = keys[op['t'] % len(keys)]
             args['key'] = Name.from_bytes(sel_key) if form == 'key' else kc[sel_id][sel_key]
         elif form in ('cert', 'cert-obj'):
-            certs = [(idn, kn, cn) for idn, kn in keys for cn in sorted(model[idn]['keys'][kn]['certs'])]
+            # (selecting by certificate goes by the certificate naming convention <key name>/<issuer>/<version>: certificates
+            # imported under other names are selected through their key or identity only)
+            certs = [(idn, kn, cn) for idn, kn in keys for cn in sorted(model[idn]['keys'][kn]['certs']) if cn[2:].startswith(kn[2:])]
             if not certs:
                 return
             sel_id, sel_key, sel_cert = certs[op['t'] % len(certs)]
@@ -387,8 +390,31 @@ def check_signer(w, model, default_id, op, r, deleted_keys):
         got_kl = d['sig_info']['key_locator']['name'] if d['sig_info']['key_locator'] else None
         if got_kl != want_kl:
             r.bad(f'C15/signer/key-locator/{form}', f'{got_kl} != {want_kl}')
+        elif ok:
+            # the application keeps this signer and goes on using it
+            w.kept = (getattr(w, 'kept', []) + [(signer, sel_key, bits, want_kl, form)])[-6:]
     except (sqlite3.Error, OSError) as e:
         r.bad(f'C15/signer/storage-error/{type(e).__name__}', repr(e))
+
+
+def recheck_kept(w, model, r):
+    """Signers handed out earlier and still held by the application: as long as their key exists they go on signing with it and
+    naming the key locator they were obtained for - whatever signers were asked for since."""
+    for signer, sel_key, bits, want_kl, form in getattr(w, 'kept', []):
+        if not any(sel_key in i['keys'] for i in model.values()):
+            continue
+        try:
+            d = P.strict_data(bytes(make_data(nm(['probe2']), MetaInfo(), b'p', signer)))
+        except Exception as e:
+            r.bad(f'C15/signer/kept-signer-raised/{type(e).__name__}', repr(e))
+            return
+        if not _verify(d['sig_info']['signature_type'], bits, d['signed'], d['sig_value']):
+            r.bad(f'C15/signer/kept-signer/wrong-private-key/{form}', Name.to_str(Name.from_bytes(sel_key)))
+            return
+        got_kl = d['sig_info']['key_locator']['name'] if d['sig_info']['key_locator'] else None
+        if got_kl != want_kl:
+            r.bad(f'C15/signer/kept-signer/key-locator-changed/{form}', f'{got_kl} != {want_kl} (as obtained)')
+            return
 
 
 def _verify(sig_type, pub, signed, sig):
@@ -514,13 +540,25 @@ def apply_op(w, model, st_, op):
         s = K.PinnedEcdsa(nm(['issuer', 'KEY', 'x', 'self', 'v']), K.KEYS[signer_key]['priv'])
         cname, cdata = derive_cert(Name.from_bytes(kn), f'imp{op["n"]}', model[idn]['keys'][kn]['bits'], s,
                                    datetime.datetime(2024, 1, 1), 3600)
+        if op.get('odd'):
+            # import_cert(key_name, cert_name, data) takes the two names separately: a certificate published by its issuer under a
+            # name of the issuer's choosing - here one that looks like a certificate of ANOTHER key in the store, if there is one
+            others = [k2 for _i2, k2 in keys if k2 != kn]
+            base = Name.from_bytes(others[op['n'] % len(others)]) if others else nm(['elsewhere', 'KEY', 'k0'])
+            cname = base + [Component.from_str(f'for-{hashlib.sha256(bytes(kn)).hexdigest()[:8]}-{op["n"]}'), Component.from_str('v=1')]
+            cdata = make_data(cname, MetaInfo(content_type=2, freshness_period=3600000), model[idn]['keys'][kn]['bits'], s)
         cb = Name.to_bytes(cname)
         if cb in model[idn]['keys'][kn]['certs']:
             return 'skip', None
+        if op.get('odd') == 'default':
+            # ... and it is the certificate its owner wants to be named in signatures
+            model[idn]['keys'][kn]['default_cert'] = None
         kc.import_cert(Name.from_bytes(kn), cname, cdata)
         model[idn]['keys'][kn]['certs'][cb] = bytes(cdata)
         if model[idn]['keys'][kn]['default_cert'] is None:
             model[idn]['keys'][kn]['default_cert'] = cb
+            if op.get('odd') == 'default':
+                kc[idn][kn].set_default_cert(cname)
         return 'ok', lambda m, d: None if cb in m.get(idn, {'keys': {}})['keys'].get(kn, {'certs': {}})['certs'] else 'imported certificate missing'
     if k == 'set_default_identity':
         if not ids:
@@ -674,6 +712,8 @@ def _run(w, case, r):
                 trace.append('w')
         elif k == 'get_signer':
             check_signer(w, model, st_['default_id'], op, r, st_['deleted_keys'])
+            if not r.violations and not st_.get('dirty'):
+                recheck_kept(w, model, r)
             trace.append('g')
             if had_delete:
                 flags.add('delete-then-signer')
@@ -830,7 +870,8 @@ def _op():
         st.fixed_dictionaries({'op': st.just('new_key'), 'i': i, 'type': st.sampled_from(['ec', 'ec', 'ec', 'rsa']),
                                'key_id': st.one_of(st.none(), st.integers(0, 3))}),
         st.fixed_dictionaries({'op': st.just('new_key'), 'i': i, 'type': st.just('ec'), 'key_id': st.none(), 'via_handle': st.just(True)}),
-        st.fixed_dictionaries({'op': st.just('import_cert'), 't': i, 'n': st.integers(0, 3)}),
+        st.fixed_dictionaries({'op': st.just('import_cert'), 't': i, 'n': st.integers(0, 3),
+                               'odd': st.sampled_from([None, None, 'default', 'default', 'plain'])}),
         st.fixed_dictionaries({'op': st.just('set_default_identity'), 'i': i}),
         st.fixed_dictionaries({'op': st.just('set_default_key'), 't': i}),
         st.fixed_dictionaries({'op': st.just('set_default_cert'), 't': i}),
